@@ -248,3 +248,18 @@ var xmlChars = &unicode.RangeTable{
 	R16: []unicode.Range16{{Lo: 0x20, Hi: 0xD7FF, Stride: 1}, {Lo: 0xE000, Hi: 0xFFFD, Stride: 1}},
 	R32: []unicode.Range32{{Lo: 0x10000, Hi: 0x10FFFF, Stride: 1}},
 }
+
+// listLen draws the length of a generated list: usually 0..max, one time in
+// forty a length at which caches, pools and size classes are typically
+// bounded (lists of dozens or hundreds of entries are legal everywhere).
+func listLen(t *rapid.T, label string, max int) int {
+	if rapid.IntRange(0, 39).Draw(t, label+"Long") == 0 {
+		// (lists nested inside other lists stay shorter: the product is what costs)
+		long := map[string][]int{"ngroups": {9, 17}, "nkids": {9, 17, 33}, "nopts": {9, 17, 33}, "nstrings": {9, 17, 65}, "njids": {9, 17, 65}}[label]
+		if long == nil {
+			long = []int{9, 17, 33, 65}
+		}
+		return rapid.SampledFrom(long).Draw(t, label+"N")
+	}
+	return rapid.IntRange(0, max).Draw(t, label)
+}
